@@ -39,6 +39,8 @@ for d in sorted(glob.glob(f"{V}/seeded/*/meta.json")):
     m = json.load(open(d))
     need = " ".join(str(m.get("needs_to_manifest", "")).split())[:230]
     runs = m.get("checks_run") or {}
+    if m.get("retired"):
+        out.append(f"| {m['seed']} | {m['property']} | {need} | retired: {m['retired'][:260]} |"); continue
     verdict = "; ".join(f"{t}: " + ("**missed**" if v["exit"] == 0 else "caught (" + ", ".join(k.replace('property-fails-on-implementation', 'failing input').replace('correspondence-broken', 'correspondence') for k in v["kinds"]) + ")") for t, v in runs.items()) or "not run yet"
     out.append(f"| {m['seed']} | {m['property']} | {need} | {verdict} |")
 out.append("")
